@@ -119,12 +119,17 @@ def check_compose(ctx, nx, a, b):
 
 
 # ---------------------------------------------------------------- suggest
-def raman(nx, nt, planted, rng, margin=12):
-    """aligned fibre on a long grid, then displace the backward channel so that shifting by -planted aligns it"""
+def raman(nx, nt, planted, rng, margin=12, feature=False):
+    """aligned fibre on a long grid, then displace the backward channel so that shifting by -planted aligns it.
+    feature: the recorded x starts at -10 m and a front-panel connector with direction-dependent loss sits at x = 0.6 m, i.e. in the
+    part of the fibre (x <= 1 m) that the objective must ignore"""
     r = np.random.default_rng(rng.randrange(2**31))
     N = nx + 2 * margin
     dx = rng.choice([0.25, 0.5, 1.0])
     xl = (np.arange(N) - margin) * dx
+    if feature:
+        dx = 0.25
+        xl = (np.arange(N) - margin) * dx - 10.0
     gamma, dalpha_r, dalpha_m, dalpha_p = 482.6, 0.0005, 0.0001, 0.00015
     T = 273.15 + 10 + 15 * r.random((N, 1)) + r.random((1, nt))  # structure along x
     L = xl[-1]
@@ -135,6 +140,16 @@ def raman(nx, nt, planted, rng, margin=12):
     ast = eta_mf * C_m * np.exp(-(dalpha_r + dalpha_m) * xl[:, None]) / (1 - E)
     rst = eta_pb * C_p * np.exp(-(dalpha_r + dalpha_p) * (L - xl[:, None])) * E / (1 - E)
     rast = eta_mb * C_m * np.exp(-(dalpha_r + dalpha_m) * (L - xl[:, None])) / (1 - E)
+    if feature:
+        # smooth temperature structure (bumps, small-scale variation) instead of independent values per location, and a connector
+        # whose loss differs between the Stokes and the anti-Stokes band: a step of ln-ratio 0.12 in both directions at x = 0.6 m
+        T = (288.0 + 6.0 * np.sin(xl / 3.0) + 4.0 * np.exp(-(((xl - 30.0) / 2.0) ** 2)) + 0.02 * r.standard_normal(N))[:, None] + np.linspace(0, 0.5, nt)[None, :]
+        E = np.exp(-gamma / T)
+        cs, ca = 0.30 * (xl > 0.6), 0.42 * (xl > 0.6)
+        st = C_p * np.exp(-(dalpha_r + dalpha_p) * (xl - xl[0])[:, None] - cs[:, None]) * E / (1 - E)
+        ast = C_m * np.exp(-(dalpha_r + dalpha_m) * (xl - xl[0])[:, None] - ca[:, None]) / (1 - E)
+        rst = C_p * np.exp(-(dalpha_r + dalpha_p) * (L - xl)[:, None] - (cs[-1] - cs)[:, None]) * E / (1 - E)
+        rast = C_m * np.exp(-(dalpha_r + dalpha_m) * (L - xl)[:, None] - (ca[-1] - ca)[:, None]) / (1 - E)
     s = -planted  # the shift that aligns
     sel = slice(margin, margin + nx)
     selb = slice(margin + s, margin + s + nx)
@@ -144,11 +159,11 @@ def raman(nx, nt, planted, rng, margin=12):
     return ds
 
 
-def check_suggest(ctx, nx, nt, planted, lo, hi):
+def check_suggest(ctx, nx, nt, planted, lo, hi, feature=False):
     from dtscalibration.dts_accessor_utils import suggest_cable_shift_double_ended
-    ds = raman(nx, nt, planted, ctx.rng)
+    ds = raman(nx, nt, planted, ctx.rng, feature=feature)
     irange = np.arange(lo, hi + 1, dtype=int)
-    case = dict(op="suggest", nx=nx, nt=nt, planted=planted, irange=[lo, hi],
+    case = dict(op="suggest", nx=nx, nt=nt, planted=planted, irange=[lo, hi], front_connector=feature,
                 data={k: ds[k].values.tolist() for k in ("st", "ast", "rst", "rast")}, x=ds.x.values.tolist())
     with warnings.catch_warnings():
         warnings.simplefilter("ignore")
@@ -197,6 +212,8 @@ def run(ctx):
         nx = rng.randint(40, 120 if ctx.quick else 300)
         planted = rng.randint(-10, 10)
         check_suggest(ctx, nx, rng.randint(1, 3), planted, -12, 12)
+    for _ in range(8 if ctx.quick else 80):  # a connector inside the ignored first metre, data needing a negative or positive shift
+        check_suggest(ctx, rng.randint(120, 200), 2, rng.choice([-8, -5, -3, 2, 3, 5, 8]), -12, 12, feature=True)
     for _ in range(5 if ctx.quick else 40):  # irange that does not contain the planted value: membership only
         check_suggest(ctx, rng.randint(40, 80), 1, rng.choice([-9, 9]), -3, 3)
 
@@ -207,8 +224,8 @@ def search(ctx):
             check_shift(ctx, nx, i)
             if ctx.failures:
                 return
-    for _ in range(40):
-        check_suggest(ctx, ctx.rng.randint(40, 150), 2, ctx.rng.randint(-10, 10), -12, 12)
+    for k in range(40):
+        check_suggest(ctx, ctx.rng.randint(120, 200) if k % 2 else ctx.rng.randint(40, 150), 2, ctx.rng.randint(-10, 10), -12, 12, feature=bool(k % 2))
         if ctx.failures:
             return
 
